@@ -7,11 +7,11 @@ RULE = ("inputs = corpus (incl. the 10 non-UTF-8 files) + seeded corpus mutants 
         "overlongs, surrogates, bytes >= 0xF5) + nesting patterns around the recursion limit; every input goes to every entry "
         "point (DocumentMut, ImDocument, Value, Item, Key, Key::parse, toml::from_str into Table/Value/a derived type, "
         "toml_edit::de::from_str/from_slice, both ValueDeserializers, Datetime::from_str) followed by to_string, Debug, clone, "
-        "drop, into_mut, from_document, into_deserializer, try_into, error rendering; build with debug assertions and overflow "
+        "drop, into_mut, from_document, into_deserializer, try_into, error rendering; 10 s budget per call; build with debug assertions and overflow "
         "checks; TLC accepts an event only if every call returned within the budget. distinct_nontrivial = distinct inputs")
 
 
-def run_entry(ctx, h, tag, path, budget_ms=2000, bytes_mod=10):
+def run_entry(ctx, h, tag, path, budget_ms=10000, bytes_mod=10):
     """runs entry-events, resuming after a crash of the harness process (abort / stack overflow)"""
     evp = ctx.path(tag + ".api.ev")
     prog = ctx.path(tag + ".progress")
